@@ -2,6 +2,8 @@ import FxVerif.Proofs.C20Fee
 import FxVerif.Proofs.C20Dec
 import FxVerif.Proofs.C20Args
 import FxVerif.Model.C20Run
+import FxVerif.Proofs.C20Msg
+import FxVerif.Gen.C20Msg
 /-!
 # C20 — hostile input never crashes a node and cannot dodge the minimum fee
 
@@ -293,6 +295,30 @@ theorem validateEthereumAddress_spec (ck : List Char → Bool) (a : List Char) :
     subst this; simp
   · by_cases h1 : a.length = 42 <;> by_cases h2 : a.take 2 = ['0', 'x'] <;>
       by_cases h3 : (a.drop 2).all isHexChar = true <;> by_cases h4 : ck a = true <;> simp [h0, h1, h2, h3, h4]
+
+/-- `fxtypes.ParseAddress` is total and classifies exactly: the bech32 form when the text is bech32, else the EVM form when it
+is a checksummed `0x` + 40 hex digits, else an error — for every input text and every behaviour of the two dependency checks -/
+theorem parseAddress_spec (b ck : List Char → Bool) (a : List Char) :
+    (parseAddress b ck a = .ok false ↔ b a = true) ∧
+    (parseAddress b ck a = .ok true ↔ b a = false ∧ ethFormat a ∧ ck a = true) ∧
+    ((∃ e, parseAddress b ck a = .error e) ↔ b a = false ∧ ¬ (ethFormat a ∧ ck a = true)) := by
+  have hv := validateEthereumAddress_spec ck a
+  unfold parseAddress
+  cases hb : b a <;> simp only [Bool.false_eq_true, if_false, if_true]
+  · cases hr : validateEthereumAddress ck a with
+    | ok u =>
+      cases u
+      have := hv.1 hr
+      simp [this]
+    | error e =>
+      have hne : ¬ (ethFormat a ∧ ck a = true) := by
+        intro h; rw [hv.2 h] at hr; cases hr
+      simp [hne]
+  · simp
+
+example : parseAddress (fun _ => false) (fun _ => true) ('0' :: 'x' :: List.replicate 40 'a') = .ok true := by rfl
+example : parseAddress (fun _ => true) (fun _ => true) "fx1abc".toList = .ok false := by rfl
+example : ∃ e, parseAddress (fun _ => false) (fun _ => true) "0x12".toList = .error e := ⟨_, rfl⟩
 
 /-- whatever `ParseFxTarget` classifies as an IBC target satisfies `IBCValidate`: port `transfer`, a well-formed channel
 identifier, a non-blank prefix — for every input string -/
@@ -621,5 +647,136 @@ example : ∃ env : Env,
      emptyStr := fun _ => false, zeroArr := fun _ => false, ext := fun _ _ => false, num := fun _ => 0 }, by decide⟩
 
 end Run
+
+/-! ## stateless validation of every message, claim, packet, parameter set and proposal: the REGENERATED programs
+
+`Gen/C20Msg.lean` holds the body of every `ValidateBasic` / `validateBasic` / `Validate` method of the fx-core message types and of
+the fx-core helper functions they call, translated statement by statement by the typed translator (`go/extractt/c20msg.go`)
+into the guard-program language of `Model/C20Msg.lean`, which the model interprets (`runAt`).  Evaluation is three-valued:
+a method call on an absent `sdkmath.Int` / `LegacyDec` / coin amount, an index beyond the length, a use of the result of a
+failed call, a nil pointer — each evaluates to a panic.  The theorems below hold for ALL environments (all decoded messages:
+every combination of absent fields, lengths, values, verdicts of the dependency validators). -/
+section Msg
+open FxVerif.Model.C20Msg FxVerif.Gen.C20Msg FxVerif.Proofs.C20Msg
+
+/-- the one validation method whose safety rests on the decoder: `IbcCallEvmPacket.ValidateBasic` calls `Value.IsNegative()`
+without an `IsNil` test (see `ibc_packet_validate_never_panics_partial`) -/
+def needsDecoderFact (p : Prog) : Bool := p.name == "x/ibc/middleware/types.IbcCallEvmPacket.ValidateBasic"
+
+set_option maxRecDepth 100000 in
+theorem msg_programs_safe :
+    (progs.filter fun p => p.reach && !needsDecoderFact p).all (fun p => safeAt table msgFuel p.name) = true := by decide +kernel
+
+/-- **stateless validation never panics** — for every message / claim / proposal / parameter validation method reachable from
+a message type, and every fx-core helper it calls, as regenerated from the source: whatever the decoded message looks like
+(any field absent, any length, any value, any verdict of the dependency validators), the method returns nil or an error.
+Moving a dereference in front of its `IsNil()` / `IsValid()` / `IsAnyNil()` / length / `err != nil` test, or deleting the test,
+breaks this proof. -/
+theorem msg_validate_never_panics (p : Prog) (hp : p ∈ progs) (hr : p.reach = true) (hn : needsDecoderFact p = false)
+    (env : Env) : runAt table msgFuel p.name env ≠ .panic := by
+  have h := List.all_eq_true.1 msg_programs_safe p (by simp [List.mem_filter, hp, hr, hn])
+  exact safeAt_sound table msgFuel p.name h env
+
+/-- every message type (root) is covered by the theorem above or by the partial one below -/
+theorem msg_roots_covered : (progs.filter (·.root)).all (fun p => p.reach) = true ∧ 40 ≤ (progs.filter (·.root)).length := by
+  decide
+
+set_option maxRecDepth 100000 in
+/-- `IbcCallEvmPacket.ValidateBasic` never panics on a packet whose `value` is not nil — which is what the only decoder of a
+memo packet (`codec.UnmarshalInterfaceJSON`, gogoproto jsonpb: a non-nullable custom type is initialised even when the key
+is absent) produces; the harness monitors `Value.IsNil()` after every decoded memo.  *partial*: the extra hypothesis is
+`env.isNil "Value" = false` (the method itself has no `IsNil` test, DESIGN §6-L). -/
+theorem ibc_packet_validate_never_panics_partial (env : Env) (hv : env.isNil "Value" = false) :
+    runAt table msgFuel "x/ibc/middleware/types.IbcCallEvmPacket.ValidateBasic" env ≠ .panic := by
+  have hfind : ∃ prog, table.find "x/ibc/middleware/types.IbcCallEvmPacket.ValidateBasic" = some prog ∧
+      safeList (safeAt table 5) [(.isNil "Value", false)] prog = true := by
+    refine ⟨_, rfl, by decide +kernel⟩
+  obtain ⟨prog, hf, hs⟩ := hfind
+  show runAt table (5 + 1) _ env ≠ .panic
+  simp only [runAt, hf]
+  refine safeList_sound (runAt table 5) (safeAt table 5) (safeAt_sound table 5) env prog _ ?_ hs
+  intro f hfm
+  simp only [List.mem_singleton] at hfm
+  subst hfm
+  simp [Fact.holds, Atom.eval, hv]
+
+-- non-vacuity of the hypothesis, and the reason it is needed: with `value` absent the method panics
+example : ∃ env : Env, env.isNil "Value" = false :=
+  ⟨{ ext := fun _ _ => false, isNil := fun _ => false, big := fun _ => 0, anyNil := fun _ => false, len := fun _ => 0,
+     num := fun _ => 0, str := fun _ => [] }, rfl⟩
+set_option maxRecDepth 100000 in
+example : runAt table msgFuel "x/ibc/middleware/types.IbcCallEvmPacket.ValidateBasic"
+    { ext := fun _ _ => false, isNil := fun _ => true, big := fun _ => 0, anyNil := fun _ => false, len := fun _ => 0,
+      num := fun _ => 0, str := fun _ => [] } = .panic := by decide
+
+/-- the calls are closed: every fx-core function a reachable validation method calls (directly, through an interface — every
+implementation —, or inside a condition) is itself translated and reachable (hence covered by `msg_validate_never_panics`),
+and every dependency function is on the reviewed list `trustedTotal` -/
+theorem msg_callees_closed :
+    callees.all (fun c => if c.fxcore then !c.progs.isEmpty && c.progs.all (fun n => progs.any fun q => q.name == n && q.reach)
+                          else trustedTotal.contains c.full) = true ∧
+    oracleCallees.all (trustedTotal.contains ·) = true ∧
+    (progs.filter (·.reach)).all (fun p => p.deps.all fun d => progs.any fun q => q.name == d && q.reach) = true := by
+  decide +kernel
+
+/-- the order matters and the check sees it: the same two steps of `MsgRequestBatch.ValidateBasic` in the other order (call
+`IsPositive()` first, test `IsNil()` afterwards) are rejected, and an environment exists on which that program panics -/
+example : safeList (fun _ => true) []
+    [.flat (.ifRet (.or (.not (.atom (.intPred "MinimumFee" "IsPositive"))) (.atom (.isNil "MinimumFee"))) true), .flat (.ret false)] = false := by
+  decide
+example : safeList (fun _ => true) []
+    [.flat (.ifRet (.or (.atom (.isNil "MinimumFee")) (.not (.atom (.intPred "MinimumFee" "IsPositive")))) true), .flat (.ret false)] = true := by
+  decide
+example : runList (fun _ _ => .ok)
+    { ext := fun _ _ => false, isNil := fun _ => true, big := fun _ => 0, anyNil := fun _ => false, len := fun _ => 0,
+      num := fun _ => 0, str := fun _ => [] }
+    [.flat (.ifRet (.or (.not (.atom (.intPred "MinimumFee" "IsPositive"))) (.atom (.isNil "MinimumFee"))) true), .flat (.ret false)] = .panic := by
+  decide
+-- an index in front of its length check (`sig[64]` before `len(sig) != 65`) is rejected; behind it, accepted
+example : safeFlat [] [.eval (.atom (.index "%sig" 64)), .ifRet (.atom (.lenK "%sig" .ne 65)) true] = false := by decide
+example : safeFlat [] [.ifRet (.atom (.lenK "%sig" .ne 65)) true, .eval (.atom (.index "%sig" 64))] = true := by decide
+
+/-! ### what the handlers rely on: a message that PASSED validation has these properties -/
+
+/-- what a message handler (or the code behind it) does with a validated message without checking again; each entry was a
+crash or would be one: the escrow of `amount + bridge fee` as one coin (`cb5569c`), `Value.Sign()` / coin arithmetic on the
+bridge-call message (`3743596`), the pairing of token contracts with amounts in the bridge-call claim handler -/
+def handlerNeeds : List (String × Need) := [
+  ("x/crosschain/types.MsgSendToExternal.ValidateBasic", .sumFits256 "Amount.Amount" "BridgeFee.Amount"),
+  ("x/crosschain/types.MsgSendToExternal.ValidateBasic", .signGt0 "Amount.Amount"),
+  ("x/crosschain/types.MsgSendToExternal.ValidateBasic", .signGt0 "BridgeFee.Amount"),
+  ("x/crosschain/types.MsgIncreaseBridgeFee.ValidateBasic", .signGt0 "AddBridgeFee.Amount"),
+  ("x/crosschain/types.MsgAddDelegate.ValidateBasic", .signGt0 "Amount.Amount"),
+  ("x/crosschain/types.MsgBondedOracle.ValidateBasic", .signGe0 "DelegateAmount.Amount"),
+  ("x/crosschain/types.MsgRequestBatch.ValidateBasic", .signGt0 "MinimumFee"),
+  ("x/crosschain/types.MsgRequestBatch.ValidateBasic", .signGe0 "BaseFee"),
+  ("x/crosschain/types.MsgBridgeCall.ValidateBasic", .nonNil "Value"),
+  ("x/crosschain/types.MsgBridgeCall.ValidateBasic", .noNilCoin "Coins"),
+  ("x/crosschain/types.MsgBridgeCallClaim.ValidateBasic", .lenEq "TokenContracts" "Amounts"),
+  ("x/crosschain/types.MsgBridgeCallClaim.ValidateBasic", .signGe0 "Value"),
+  ("x/crosschain/types.MsgSendToFxClaim.ValidateBasic", .signGe0 "Amount"),
+  ("x/erc20/types.MsgConvertCoin.ValidateBasic", .signGt0 "Coin.Amount"),
+  ("x/erc20/types.MsgConvertERC20.ValidateBasic", .signGt0 "Amount"),
+  ("x/erc20/types.MsgConvertDenom.ValidateBasic", .signGt0 "Coin.Amount")
+]
+
+set_option maxRecDepth 100000 in
+theorem handler_needs_entailed : handlerNeeds.all (fun x => needAt table x.2 msgFuel [] x.1) = true := by decide +kernel
+
+/-- **a message that passes `ValidateBasic` has what its handler relies on** — for every entry of `handlerNeeds` and every
+environment on which the regenerated validation method returns nil: amounts present and of the stated sign, `amount + fee`
+representable, no nil coin, arrays of equal length.  Weakening or removing the corresponding check breaks this proof. -/
+theorem validated_msg_has_handler_needs (name : String) (n : Need) (hx : (name, n) ∈ handlerNeeds) (env : Env)
+    (hok : Nil (runAt table msgFuel name env)) : n.holds env := by
+  have h := List.all_eq_true.1 handler_needs_entailed (name, n) hx
+  exact needAt_sound table n env msgFuel [] name h (by intro f hf; cases hf) hok
+
+set_option maxRecDepth 100000 in
+-- non-vacuity: a MsgSendToExternal environment on which validation returns nil
+example : runAt table msgFuel "x/crosschain/types.MsgSendToExternal.ValidateBasic"
+    { ext := fun fn _ => fn == "mapHas:externalAddressRouter", isNil := fun _ => false, big := fun _ => 5, anyNil := fun _ => false,
+      len := fun _ => 0, num := fun _ => 0, str := fun _ => [] } = .ok := by decide
+
+end Msg
 
 end FxVerif.Props.C20
